@@ -8,7 +8,8 @@
    literals are int64 or float64, |0 gives int32, >>>0 gives uint32, values
    put in by the host keep their Go kind).  It travels here as (kind, payload):
    payload = the integer for integer kinds, the bit pattern of the double for
-   KF64.  Float results are kept as exact dyadic values (Common.Double.dclass),
+   KF64 (and for KF32, a payload that only arises from a *float32 or a named
+   float32 type and that Value.float64() handles since c3fcfac).  Float results are kept as exact dyadic values (Common.Double.dclass),
    so every statement below is plain Z arithmetic.
 
    Platform facts written into the model (amd64, trusted base):
@@ -208,7 +209,7 @@ Definition sv_float (v : sval) : dclass :=
 (* the "frac > 0" guard: only for float64 payloads, only positive fractions *)
 Definition frac_guard (v : sval) : bool :=
   match v with
-  | SNum (KF64, p) =>
+  | SNum (KF64, p) | SNum (KF32, p) =>
       match decode p with
       | DFin false m e => negb (is_integral m e)
       | _ => false
@@ -352,8 +353,7 @@ Definition spec_store (v : sval) (t : nk) : outcome :=
 Definition src_wf (s : src) : bool :=
   let '(k, p) := s in
   match k with
-  | KF32 => false
-  | KF64 => (0 <=? p) && (p <? 2 ^ 64)
+  | KF32 | KF64 => (0 <=? p) && (p <? 2 ^ 64)   (* a float32 payload travels as the bits of the double with the same value *)
   | _ => in_range k p
   end.
 
